@@ -9,7 +9,7 @@ COMMON_TRUST = [
     "machine integers as mathematical integers (overflow outside the claim; counters assumed < 2^20 where arithmetic occurs)",
 ]
 
-BROKER_H = ["eventlogger/broker_state.go", "eventlogger/broker_ops.go", "eventlogger/c02.go", "eventlogger/c01_c07_c20.go"]
+BROKER_H = ["eventlogger/broker_state.go", "eventlogger/broker_ops.go", "eventlogger/c02.go", "eventlogger/c01_c07_c20.go", "eventlogger/c14.go"]
 
 PROPS = {
     "C02": dict(
@@ -88,3 +88,20 @@ PROPS["C18"] = dict(
     trusted_base=COMMON_TRUST,
 )
 PROPS["C17"] = dict(PROPS["C11"], must_reach=["C17.flushall.ok", "C11.process.gated"])
+PROPS["C14"] = dict(
+    level="other",
+    explanation="JSONFormatter / JSONFormatterFilter / Filter / Event.FormattedAs / Event.Format executed symbolically over arbitrary events (symbolic type, time, payload fields, nil or <=2-entry format table) and predicate outcomes; json.Encoder.Encode is an uninterpreted deterministic function of the flattened value (including the struct's field tags), so 'the stored bytes are the encoding of exactly {created_at,event_type,payload}' is a term equality against an independently written reference encoding.",
+    jobs=[dict(harness=BROKER_H, entries=r"^H_C14_", params=dict(quick={}, thorough={}))],
+    must_reach=["C14.unencodable", "C14.forwarded", "C14.filter.end", "C14.table.end"],
+    bounds=dict(quick="format table nil or <=2 entries", thorough="same"),
+    assumptions=["validity / round-trip of the JSON text itself is trusted encoding/json", "concurrent FormattedAs/Format: see C19 (lockset)"],
+    trusted_base=COMMON_TRUST,
+)
+PROPS["C13"] = dict(
+    level="other",
+    explanation="writer.Sink.Process executed symbolically with an io.Writer stub returning symbolic (n, err) incl. short writes, arbitrary format tables (<=F entries) and configured format: success only after exactly one Write of exactly the configured format's bytes under the sink's lock; error otherwise. (bytes.Reader.WriteTo is the standard library's code transcribed as a Go model over opaque content.)",
+    jobs=[dict(pkg="./sinks/writer", harness=["sinks/writer.go"], entries=r"^H_C13_writer", params=dict(quick=dict(F=2), thorough=dict(F=3)))],
+    must_reach=["C13.writer.rejected", "C13.writer.ok", "C13.writer.failed"],
+    bounds=dict(quick="<=2 formats", thorough="<=3 formats"),
+    trusted_base=COMMON_TRUST,
+)
